@@ -504,4 +504,84 @@ example :
              metadata := [(str "content-type", (str "application/grpc", false)),
                           (str "x-a", (str "1", false)), (str "x-a", (str "2", false))] } := by decide
 
+/-! ### futures polled later, in any order; pending wrapped futures; hints of the wrapped body
+(dimension audit: `async` cases) -/
+
+private theorem resolve_future (d : Nat) (res : Except ε (Response ρ)) :
+    RespFuture.resolveWith addHeader (d + 1) (.future d res) = some (wrapResult res, d) := by
+  induction d with
+  | zero => simp [RespFuture.resolveWith, RespFuture.pollWith]
+  | succ n ih =>
+    show RespFuture.resolveWith addHeader (n + 1 + 1) (.future (n + 1) res) = _
+    rw [RespFuture.resolveWith]
+    simp only [RespFuture.pollWith]
+    rw [ih]
+    rfl
+
+/-- Polling a `ResponseFuture` until it is ready gives the value it stands for, after exactly the
+wrapped future's own number of `Pending`s (none at all for a rejection) — for EVERY future value,
+whenever and in whatever order it is polled: `poll` takes the future alone, no service state. -/
+theorem C12_future_resolves (fut : RespFuture ρ ε) (h : fut ≠ .status none) :
+    RespFuture.resolveWith addHeader (fut.pendingPolls + 1) fut =
+      some (fut.outcomeWith addHeader, fut.pendingPolls) := by
+  cases fut with
+  | future d res => exact resolve_future d res
+  | status st =>
+    cases st with
+    | none => exact absurd rfl h
+    | some st => simp [RespFuture.resolveWith, RespFuture.pollWith, RespFuture.outcomeWith, RespFuture.pendingPolls]
+
+/-- `InterceptedService::call` with a wrapped service whose futures complete later does, BEFORE the
+returned future is polled, everything `call` does (interceptor run once, wrapped service invoked or
+not, same states, same request handed on), and the future stands for exactly `call`'s outcome with
+an at-once wrapped service; a rejection is never `Pending`. -/
+theorem C12_future_resolves_to_call (f : Icpt σ) (inner : InnerD ι β ρ ε) (s : σ) (i : ι) (req : Request β) :
+    let cf := callFut f inner s i req
+    let c := call f inner.now s i req
+    cf.icpt = c.icpt ∧ cf.inner = c.inner ∧ cf.innerSaw = c.innerSaw ∧
+    cf.fut.outcomeWith addHeader = c.out ∧ cf.fut ≠ .status none ∧
+    (cf.innerSaw = none → cf.fut.pendingPolls = 0) := by
+  simp only [callFut, call, callWith, InnerD.now, intoParts, fromParts, fromHttp]
+  split
+  · rename_i s' md' ext' hf
+    split <;> rename_i i' res hi <;>
+      simp_all [RespFuture.outcomeWith, wrapResult]
+  · rename_i s' st hf
+    simp [RespFuture.outcomeWith, RespFuture.pendingPolls]
+
+/-- The moment and the order of polling are invisible: make ALL calls of a sequence first and keep
+the futures (poll them afterwards in any order, even after the service value is gone) — the wrapped
+service saw exactly what it sees when every future is awaited before the next call, the final states
+are the same, and every future stands for the outcome of its own call. -/
+theorem C12_poll_order_invisible (f : Icpt σ) (inner : InnerD ι β ρ ε) (s : σ) (i : ι) (reqs : List (Request β)) :
+    runCalls f inner.now s i reqs =
+      ((runCallsFut f inner s i reqs).1, (runCallsFut f inner s i reqs).2.1,
+       (runCallsFut f inner s i reqs).2.2.map (fun p => (p.1, p.2.outcomeWith addHeader))) := by
+  induction reqs generalizing s i with
+  | nil => simp [runCalls, runCallsFut]
+  | cons r rs ih =>
+    have h := C12_future_resolves_to_call f inner s i r
+    simp only at h
+    obtain ⟨h1, h2, h3, h4, _, _⟩ := h
+    simp only [runCalls, runCallsFut]
+    rw [← h1, ← h2, ih]
+    simp [h3, h4]
+
+/-- The wrapped body's hints are the caller's hints, whatever they are (non-exact bounds, a body that
+never says "end"): `ResponseBody::Wrap` delegates; the rejection's body is exactly empty and at its end. -/
+theorem C12_response_body_hints_delegate (eos : ρ → Bool) (hint : ρ → Nat × Option Nat) (b : ρ) :
+    RespBody.isEndStream eos (RespBody.wrap b) = eos b ∧
+    RespBody.sizeHintRange hint (RespBody.wrap b) = hint b ∧
+    RespBody.isEndStream eos (RespBody.empty : RespBody ρ) = true ∧
+    RespBody.sizeHintRange hint (RespBody.empty : RespBody ρ) = (0, some 0) := ⟨rfl, rfl, rfl, rfl⟩
+
+/-- non-vacuity: a wrapped future that is `Pending` twice; three polls, two `Pending`s, then the answer -/
+example :
+    RespFuture.resolveWith addHeader 3
+      (callFut (fun (_ : Unit) mx => ((), .ok mx))
+        (fun (n : Nat) (_ : Request Nat) => (n + 1, 2, (.error 7 : Except Nat (Response Unit)))) () 0
+        { method := str "POST", version := 2, uri := str "/s/m", headers := [], ext := [], body := 5 }).fut
+      = some (.error 7, 2) := by rfl
+
+
 end C12
